@@ -669,6 +669,13 @@ def flow_cases(ctx: Ctx, rng: Any, scratch: str, hist: Hist) -> Tuple[List[str],
         # only options the in-memory connection can honour (no proxy commands, key files, sockets)
         for rel in list(c['files']):
             c['files'][rel] = '\n'.join(l for l in c['files'][rel].split('\n') if flow_line_ok(l)) + '\n'
+        # an alias block: the name the caller gave maps to another Hostname; the final pass must still be made
+        # for the caller's name (Host / Match originalhost blocks keep matching)
+        if rng.random() < 0.5:
+            c['files']['main.conf'] = '\n'.join(
+                ['Host memhost', ' Hostname real%d' % rng.randint(0, 2), ' User alias%d' % rng.randint(0, 2),
+                 ' Port %d' % rng.choice([2031, 2032]), 'Match originalhost memhost', ' Compression yes']) + '\n' + \
+                c['files']['main.conf']
         # make the visible options (User, Port) depend on blocks
         c['files']['main.conf'] += '\n'.join(
             [g.gen_match(rng, True), ' User flow%d' % rng.randint(0, 3), g.gen_match(rng, True),
@@ -754,6 +761,13 @@ FLOW_CORPUS: List[Dict[str, Any]] = [
     {'cls': 'client', 'files': {'main.conf': 'Match final\n User fin\n Port 2222\nHost *\n Port 22\n User first\n'},
      'main': ['main.conf'], 'target': {'host': 'memhost', 'user': None, 'port': None}, 'mode': 'resolve'},
     {'cls': 'client', 'files': {'main.conf': 'Host memhost\n User viahost\nMatch !host memhost\n Port 99\n'},
+     'main': ['main.conf'], 'target': {'host': 'memhost', 'user': None, 'port': None}, 'mode': 'resolve'},
+    # alias + Match final: the final pass is made for the caller's name, so the alias block matches again
+    {'cls': 'client', 'files': {'main.conf': 'Host memhost\n Hostname real\n Port 2031\n User alice\n'
+                                             'Match final\n ServerAliveInterval 5\n'},
+     'main': ['main.conf'], 'target': {'host': 'memhost', 'user': None, 'port': None}, 'mode': 'resolve'},
+    {'cls': 'client', 'files': {'main.conf': 'Host memhost\n Hostname real\nMatch originalhost memhost\n User orig\n'
+                                             'Match final host real\n Port 2033\n'},
      'main': ['main.conf'], 'target': {'host': 'memhost', 'user': None, 'port': None}, 'mode': 'resolve'},
 ]
 
